@@ -5,7 +5,8 @@
 (* notifications later (at most MaxNotes outstanding), one truncation, one restart (pool kept or lost), one removal.   *)
 (* The purpose is to show that the composed invariants are consistent with each other and non-vacuous.                *)
 EXTENDS Node
-CONSTANTS Universe,   \* "chain": a <- b;  "conflict": a and b spend the same genesis cell
+CONSTANTS Universe,   \* "chain": a <- b;  "conflict": a and b spend the same genesis cell;  "three": a <- b and x conflicting with a
+          MaxProps,   \* proposals per block arriving from elsewhere
           MaxBlocks, MaxForks, MaxNotes, Works, MaxTrunc, MaxRestart, MaxRemove, NConf,
           LagSubmit   \* TRUE: submissions also while a notification is outstanding (resolved against the lagging view)
 VARIABLES pend,       \* the minted block that has not been delivered yet (-1: none)
@@ -13,17 +14,18 @@ VARIABLES pend,       \* the minted block that has not been delivered yet (-1: n
 mcvars == <<nvars, pend, ntr, nrs, nrm>>
 
 G(i) == <<"g", i>>
-UTxs == {"a", "b"}
-UIns == [t \in UTxs |-> IF t = "a" THEN {G(1)} ELSE IF Universe = "chain" THEN {<<"a", 0>>} ELSE {G(1)}]
+UTxs == IF Universe = "three" THEN {"a", "b", "x"} ELSE {"a", "b"}
+UIns == [t \in UTxs |-> IF t = "a" \/ t = "x" THEN {G(1)} ELSE IF Universe # "conflict" THEN {<<"a", 0>>} ELSE {G(1)}]
 UNone == [t \in UTxs |-> {}]
 UFee == [t \in UTxs |-> IF t = "a" THEN 1 ELSE 2]
 UOne == [t \in UTxs |-> 1]
 UGenesis == {G(1), G(2)}
-UTxNo == [t \in UTxs |-> IF t = "a" THEN 4 ELSE 5]
+UTxNo == [t \in UTxs |-> IF t = "a" THEN 4 ELSE IF t = "b" THEN 5 ELSE 6]
 UGNo == [o \in UGenesis |-> <<o[2] + 1, 0>>]
 CG(n) == [ins |-> {}, deps |-> {}, nouts |-> n, fee |-> 0]
 UCsTx == <<CG(1), CG(1), CG(1), [ins |-> {<<2, 0>>}, deps |-> {}, nouts |-> 1, fee |-> 1],
-           [ins |-> IF Universe = "chain" THEN {<<4, 0>>} ELSE {<<2, 0>>}, deps |-> {}, nouts |-> 1, fee |-> 2]>>
+           [ins |-> IF Universe # "conflict" THEN {<<4, 0>>} ELSE {<<2, 0>>}, deps |-> {}, nouts |-> 1, fee |-> 2]>>
+         \o (IF Universe = "three" THEN <<[ins |-> {<<2, 0>>}, deps |-> {}, nouts |-> 1, fee |-> 2]>> ELSE <<>>)
 UCsGenesis == <<1, 2, 3>>
 Conf12 == [maxAnc |-> 3, maxSize |-> 100, rbf |-> FALSE, rbfRate |-> 1000, close |-> 1, far |-> 2, mine |-> TRUE]
 Conf23 == [maxAnc |-> 3, maxSize |-> 100, rbf |-> FALSE, rbfRate |-> 1000, close |-> 2, far |-> 3, mine |-> TRUE]
@@ -47,7 +49,7 @@ MCMineTpl ==
 \* a block from elsewhere
 MCForeign ==
   /\ Quiet /\ CS!NBlocks <= MaxBlocks /\ Len(notes) < MaxNotes
-  /\ \E p \in DOMAIN blocks : \E props \in { S \in SUBSET Txs : Cardinality(S) <= 1 } : \E w \in Works :
+  /\ \E p \in DOMAIN blocks : \E props \in { S \in SUBSET Txs : Cardinality(S) <= MaxProps } : \E w \in Works :
        LET ch == PoolView(CS!Chain(p)) IN
        \E C \in SUBSET (WindowSet(ch, conf) \ Committed(ch)) :
           /\ ValidCommits(C, ch)
